@@ -5,7 +5,9 @@
     hsmsss/transport_control.go   handleSelectReq / handleDeselectReq / handleLinktestReq /
                                   handleSeparateReq / sendReject / sendRejectNotSelected /
                                   sendRejectTransactionNotOpen
-    hsmsss/transport_active.go    runSelectProcedure (what it does with the routed reply)
+    hsmsss/transport_active.go    startActive / runSelectProcedure -> `Ev.tcpUp`, `Ev.t6Select`, `handleResponse`
+    hsmsss/transport_procedures.go armT7 / cancelT7 / runT7   -> the `t7` flag, `Ev.t7`
+    hsmsss/transport_recv.go      readFrame / readN T8         -> `Ev.t8`
     hsmsss/transport_passive.go   acceptLoop               -> `acceptStep`
     hsms/connection_runtime.go    DeliverOwnedFrame / checkSessionID / RouteReply
     hsms/connection_send.go       sendWaitReply / sendNoReply / SendAsync / writeFrame gates -> `send`
@@ -14,7 +16,8 @@
   logical state is just NotConnected / NotSelected / Selected with the SYNCHRONOUS commits the recv
   goroutine performs (CommitSelected before Select.rsp is queued; right after a status-0 Select.rsp
   is routed; CommitSelectLost on Deselect). The recv loop is a single sequential reader, so the model
-  is a pure function of (state, frame). Timers (T6/T7/T8) are not modelled: histories are time-free.
+  is a pure function of (state, event). Timers appear as EVENTS (`Ev.t6Select`, `Ev.t7`, `Ev.t8`): durations
+  stay abstract, the environment may inject "timer X fired" only while X is armed (`Enabled`).
 
   Core Lean only (linked into the driver).
 -/
@@ -54,6 +57,10 @@ inductive Effect
   | peerSeparate
   /-- the reply routed to our own pending Select.req makes `runSelectProcedure` call `rt.TCPDown` -/
   | selectFailed
+  /-- T7 (NOT SELECTED dwell) expired while NotSelected: `rt.T7Expired()` drops the link -/
+  | t7Expired
+  /-- T8 (inter-character) expired inside a frame: read error, `rt.TCPDown` -/
+  | t8Expired
   deriving DecidableEq, Repr
 
 /-! ## Constants (tied to `GoSecs.Gen` in Props/C08) -/
@@ -89,16 +96,24 @@ structure Cfg where
   validate : Bool
   /-- the connection's own configured session id -/
   sessionID : Nat
+  /-- T7 > 0 (a zero T7 disables the dwell timer: `armT7` returns early) -/
+  t7 : Bool
   deriving DecidableEq, Repr
 
-/-- Receive-side state: the logical connection state and the per-generation reply registry, split into our
-    own pending Select.req (active role, `runSelectProcedure`) and every other open transaction
-    (linktest probes, W-bit data sends), keyed by system bytes. -/
+/-- Receive-side state: the logical connection state, the per-generation reply registry keyed by system
+    bytes — our own pending Select.req (active role, `runSelectProcedure`, a control transaction bounded by
+    T6), the other open CONTROL transactions (linktest probes) and the open DATA transactions (W-bit sends
+    awaiting their secondary) — and whether the T7 dwell timer is armed. -/
 structure RState where
   st : St
   openSel : Option Nat
   openOther : List Nat
+  openData : List Nat
+  t7 : Bool
   deriving DecidableEq, Repr
+
+/-- Teardown of the generation: NotConnected, every waiter released, every timer cancelled (genCtx). -/
+def down (_s : RState) : RState := ⟨.notConnected, none, [], [], false⟩
 
 /-! ## The responders -/
 
@@ -120,48 +135,60 @@ def isS9F1 (f : Frame) : Bool := f.b2 % 128 == 9 && f.b3 == 1
 /-- `isSecondaryReply`: W-bit clear and even function. -/
 def isSecondaryReply (f : Frame) : Bool := decide (f.b2 < 128) && f.b3 % 2 == 0
 
-/-- `RouteReply`: which registry entry, if any, the system bytes hit. -/
+/-- `RouteReply`: which registry entry, if any, the system bytes hit. The registry is kind-aware: a control
+    response completes only control waiters, a data secondary only data waiters, a Reject.req either. -/
 inductive Hit
-  | miss | ownSelect | other
+  | miss | ownSelect | other | data
   deriving DecidableEq, Repr
 
+/-- a control response (Select/Deselect/Linktest.rsp): control waiters only -/
 def lookup (s : RState) (sys : Nat) : Hit :=
   if s.openSel = some sys then .ownSelect else if sys ∈ s.openOther then .other else .miss
+
+/-- a Reject.req: any waiter -/
+def lookupAny (s : RState) (sys : Nat) : Hit :=
+  if s.openSel = some sys then .ownSelect else if sys ∈ s.openOther then .other
+  else if sys ∈ s.openData then .data else .miss
 
 /-- The transaction is over once its waiter got a reply (the waiter deregisters on wake-up). -/
 def close (s : RState) (sys : Nat) : RState :=
   if s.openSel = some sys then { s with openSel := none } else { s with openOther := s.openOther.erase sys }
 
-/-- `CommitSelected`: guarded CAS NotSelected → Selected. -/
+def closeData (s : RState) (sys : Nat) : RState := { s with openData := s.openData.erase sys }
+
+/-- `CommitSelected`: guarded CAS NotSelected → Selected; a genuine commit cancels the T7 dwell (`cancelT7`). -/
 def commitSelected (s : RState) : RState × Bool :=
-  if s.st = .notSelected then ({ s with st := .selected }, true) else (s, false)
+  if s.st = .notSelected then ({ s with st := .selected, t7 := false }, true) else (s, false)
 
 /-- DATA frame: `dispatchFrame` case DataMsgType + `DeliverOwnedFrame`. -/
 def handleData (c : Cfg) (s : RState) (f : Frame) : RState × List Out × Effect :=
   if s.st ≠ .selected then (s, [sendRejectNotSelected f], .none)
   else if c.validate && !isS9F1 f && f.session != c.sessionID then (s, [.s9f1 c.sessionID f], .none)
   else if isSecondaryReply f then
-    match lookup s f.sys with
-    | .ownSelect =>
-      -- the select procedure receives a data message instead of a Select.rsp: TCPDown(errSelectRejected)
-      ({ close s f.sys with st := .notConnected }, [], .selectFailed)
-    | .other => (close s f.sys, [], .none)        -- consumed as the reply of a local sender
-    | .miss => (s, [.deliver f], .none)           -- orphan secondary: delivered as unsolicited
+    if f.sys ∈ s.openData then (closeData s f.sys, [], .none)   -- consumed as the reply of a local sender
+    else (s, [.deliver f], .none)                                 -- orphan secondary: delivered as unsolicited
   else (s, [.deliver f], .none)
 
-/-- Select.rsp / Deselect.rsp / Linktest.rsp / Reject.req: route by system bytes. -/
+/-- Select.rsp / Deselect.rsp / Linktest.rsp / Reject.req: route by system bytes (and kind). What
+    `runSelectProcedure` does with the reply routed to our own Select.req is folded in here. -/
 def handleResponse (s : RState) (f : Frame) : RState × List Out × Effect :=
-  match lookup s f.sys with
-  | .miss =>
-    if f.stype ≠ stRejectReq then (s, [sendRejectTransactionNotOpen f], .none) else (s, [], .none)
-  | .other =>
-    let s1 := close s f.sys
-    if f.stype = stSelectRsp ∧ f.b3 = selectStatusSuccess then ((commitSelected s1).1, [], .none) else (s1, [], .none)
-  | .ownSelect =>
-    let s1 := close s f.sys
-    if f.stype = stSelectRsp ∧ f.b3 = selectStatusSuccess then ((commitSelected s1).1, [], .none)   -- H2 initiator commit
-    else if f.stype = stSelectRsp ∧ f.b3 = selectStatusAlreadyActive then (s1, [], .none)          -- success, no commit
-    else ({ s1 with st := .notConnected }, [], .selectFailed)  -- other status / other response type / Reject
+  if f.stype = stRejectReq then
+    match lookupAny s f.sys with
+    | .miss => (s, [], .none)                                   -- orphan Reject.req: dropped, never re-rejected
+    | .other => (close s f.sys, [], .none)
+    | .data => (closeData s f.sys, [], .none)                   -- the data sender gets a *RejectError
+    | .ownSelect => (down s, [], .selectFailed)                 -- WriteMessage(Select.req) fails: TCPDown
+  else
+    match lookup s f.sys with
+    | .miss | .data => (s, [sendRejectTransactionNotOpen f], .none)
+    | .other =>
+      let s1 := close s f.sys
+      if f.stype = stSelectRsp ∧ f.b3 = selectStatusSuccess then ((commitSelected s1).1, [], .none) else (s1, [], .none)
+    | .ownSelect =>
+      let s1 := close s f.sys
+      if f.stype = stSelectRsp ∧ f.b3 = selectStatusSuccess then ((commitSelected s1).1, [], .none)   -- H2 initiator commit
+      else if f.stype = stSelectRsp ∧ f.b3 = selectStatusAlreadyActive then (s1, [], .none)          -- success, no commit
+      else (down s, [], .selectFailed)            -- other status / Deselect.rsp / Linktest.rsp: TCPDown(errSelectRejected)
 
 /-- `handleSelectReq`: commit FIRST, then queue Select.rsp (status 0 on a genuine transition, else 1). -/
 def handleSelectReq (s : RState) (f : Frame) : RState × List Out × Effect :=
@@ -172,14 +199,14 @@ def handleLinktestReq (s : RState) (f : Frame) : RState × List Out × Effect :=
   (s, [.ctrl 0xFFFF 0 0 stLinktestRsp f.sys], .none)
 
 /-- `handleDeselectReq`. -/
-def handleDeselectReq (s : RState) (f : Frame) : RState × List Out × Effect :=
-  if s.st = .selected then
-    ({ s with st := .notSelected }, [.ctrl f.session 0 deselectStatusSuccess stDeselectRsp f.sys], .none)
+def handleDeselectReq (c : Cfg) (s : RState) (f : Frame) : RState × List Out × Effect :=
+  if s.st = .selected then   -- SelectLost, stopLinktest, armT7: the NOT SELECTED dwell applies again
+    ({ s with st := .notSelected, t7 := c.t7 }, [.ctrl f.session 0 deselectStatusSuccess stDeselectRsp f.sys], .none)
   else (s, [.ctrl f.session 0 deselectStatusNotEstablished stDeselectRsp f.sys], .none)
 
 /-- `handleSeparateReq`. -/
 def handleSeparateReq (s : RState) : RState × List Out × Effect :=
-  if s.st = .selected then ({ s with st := .notConnected }, [], .peerSeparate) else (s, [], .none)
+  if s.st = .selected then (down s, [], .peerSeparate) else (s, [], .none)
 
 /-- `dispatchFrame`, one frame. In NotConnected there is no recv loop: nothing happens. -/
 def dispatch (c : Cfg) (s : RState) (f : Frame) : RState × List Out × Effect :=
@@ -191,7 +218,7 @@ def dispatch (c : Cfg) (s : RState) (f : Frame) : RState × List Out × Effect :
     handleResponse s f
   else if f.stype = stSelectReq then handleSelectReq s f
   else if f.stype = stLinktestReq then handleLinktestReq s f
-  else if f.stype = stDeselectReq then handleDeselectReq s f
+  else if f.stype = stDeselectReq then handleDeselectReq c s f
   else if f.stype = stSeparateReq then handleSeparateReq s
   else (s, [], .none)
 
@@ -202,6 +229,56 @@ def run (c : Cfg) : RState → List Frame → RState × List (List Out × Effect
     let (s1, o, e) := dispatch c s f
     let (s2, rest) := run c s1 fs
     (s2, (o, e) :: rest)
+
+/-! ## Events: connection establishment, frames, timers -/
+
+inductive Ev
+  /-- TCP connection adopted (`startActive` after the dial / `acceptLoop` first accept): `rt.TCPUp`, recv loop
+      started, T7 armed; the active role also sends Select.req with system bytes `sys` (T6-bounded). -/
+  | tcpUp (active : Bool) (sys : Nat)
+  | frame (f : Frame)
+  /-- T6 of our own Select.req expired with no reply routed -/
+  | t6Select
+  /-- the T7 dwell timer fired -/
+  | t7
+  /-- T8 expired between two bytes of a frame -/
+  | t8
+  deriving DecidableEq, Repr
+
+/-- A timer event can only happen while its timer is armed. -/
+def Enabled (s : RState) : Ev → Prop
+  | .tcpUp _ _ => s.st = .notConnected
+  | .frame _ => s.st ≠ .notConnected
+  | .t6Select => s.openSel ≠ none
+  | .t7 => s.t7 = true
+  | .t8 => s.st ≠ .notConnected
+
+def step (c : Cfg) (s : RState) : Ev → RState × List Out × Effect
+  | .tcpUp active sys =>
+    if s.st = .notConnected then
+      (⟨.notSelected, if active then some sys else none, [], [], c.t7⟩,
+       if active then [.ctrl c.sessionID 0 0 stSelectReq sys] else [], .none)
+    else (s, [], .none)
+  | .frame f => dispatch c s f
+  | .t6Select =>
+    -- WriteMessage returns ErrT6Timeout: "active Select procedure failed" → TCPDown, whatever the state
+    if s.openSel ≠ none ∧ s.st ≠ .notConnected then (down s, [], .selectFailed) else (s, [], .none)
+  | .t7 =>
+    -- runT7 → rt.T7Expired → evT7Timeout: drops the link only from NotSelected, a no-op otherwise
+    if s.t7 then
+      if s.st = .notSelected then (down s, [], .t7Expired) else ({ s with t7 := false }, [], .none)
+    else (s, [], .none)
+  | .t8 => if s.st ≠ .notConnected then (down s, [], .t8Expired) else (s, [], .none)
+
+def runEv (c : Cfg) : RState → List Ev → RState × List (List Out × Effect)
+  | s, [] => (s, [])
+  | s, e :: es =>
+    let r := step c s e
+    let rest := runEv c r.1 es
+    (rest.1, (r.2.1, r.2.2) :: rest.2)
+
+/-- Before the first TCP connection. -/
+def RState.idle : RState := ⟨.notConnected, none, [], [], false⟩
 
 /-- All outputs of a run, flattened. -/
 def outs (c : Cfg) (s : RState) (fs : List Frame) : List Out :=
@@ -220,7 +297,7 @@ def acceptStep (live : Bool) : Bool × AcceptAct := if live then (true, .refuse)
 /-- The whole passive endpoint: a TCP connect event does not reach the responder state unless adopted. -/
 def acceptConn (live : Bool) (s : RState) : Bool × RState × AcceptAct :=
   match acceptStep live with
-  | (l, .adopt) => (l, { st := .notSelected, openSel := none, openOther := [] }, .adopt)   -- TCPUp: NotConnected→NotSelected
+  | (l, .adopt) => (l, ⟨.notSelected, none, [], [], true⟩, .adopt)   -- TCPUp: NotConnected→NotSelected, T7 armed
   | (l, .refuse) => (l, s, .refuse)
 
 /-! ## Send gates (C07) -/
